@@ -1,25 +1,47 @@
-import CM.Proofs.ParseWholeRender
+import CM.Proofs.ParseWholeSafe2
+import CM.Proofs.ParseWholeRaw
 /-
-C07 for PARSER OUTPUT: the tree condition `safePre` of `render_wellformed` is established by the model of `Parse` itself.
-`parse_safePre_partial`: for every input and every root on which the inline phase completed, the final tree satisfies `safePre`
-(character-reference nodes span `&...;`, soft breaks span their line ending) - given one decidable proviso on the block-phase tree,
-`defCharRefSpansIn`: character-reference nodes inside the destination or title of a link REFERENCE DEFINITION lie inside the
-Source (C02's `spansOK` implies it; vacuous for roots without definitions; evaluated with C02's check on every generated tree).
-`parse_render_wellformed_partial`: hence rendering a parsed root with raw HTML ignored and no filter is accepted by the grammar.
+C07 and C17 for PARSER OUTPUT, with no hypothesis: the tree conditions of the renderer theorems are established by the model of
+`Parse` itself (11 + 2 proof files `ParseWhole*`, connecting the block-phase invariants, the inline-phase invariants and the
+renderer theorems).
+`parse_safePre`: for every input and every root on which the inline phase completed, the final tree satisfies `safePre`
+(character-reference nodes span `&...;`, soft breaks span their line ending; all spans of the block-phase tree lie inside Source).
+`parse_render_wellformed`: hence the SAFE-MODE rendering (raw HTML ignored, no filter or FilterTagGFM) of every root of every input
+is accepted by the HTML grammar - C07's statement for the whole pipeline Parse → Render in the model.
+`parse_render_no_rejected_start_tag_ignoreRaw`: C17(b) for the whole pipeline when raw HTML is ignored, for every name-closed
+predicate. With raw HTML written, the seam condition `rawSeamsOK` of C17's page theorem is NOT implied by the simple sufficient
+condition `rawClosed` for parser output (`parse_rawClosed_false`: an HTML block `<div` that ends the input without a line ending);
+`rawSeamsOK` itself stays monitored there (`seams` op on every parser tree).
 -/
 namespace CM.Props.C07
 open CM CM.Model CM.Spec CM.Proofs CM.Proofs.PW
 
-theorem parse_safePre_partial (x : PExt) (ix : IExt) (inp : Bytes) :
-    ∀ pr ∈ (parseDoc x ix inp).roots, ∀ t', pr.tree = .ok t' →
-      defCharRefSpansIn pr.root.source (pbToTree pr.root.block) = true → safePre pr.root.source t' = true :=
-  PW.parse_safePre_partial x ix inp
+/-- The parser contract of C07/C13/C17 holds for every final tree of every input. -/
+theorem parse_safePre (x : PExt) (ix : IExt) (inp : Bytes) :
+    ∀ pr ∈ (parseDoc x ix inp).roots, ∀ t', pr.tree = .ok t' → safePre pr.root.source t' = true :=
+  PW.parse_safePre x ix inp
 
-theorem parse_render_wellformed_partial (x : PExt) (ix : IExt) (inp : Bytes) :
+/-- **C07 for Parse → Render**: safe-mode output of every root of every input is in the language of the grammar. -/
+theorem parse_render_wellformed (x : PExt) (ix : IExt) (inp : Bytes) :
     ∀ pr ∈ (parseDoc x ix inp).roots, ∀ t', pr.tree = .ok t' →
-      defCharRefSpansIn pr.root.source (pbToTree pr.root.block) = true →
       ∀ cx : RCtx, cx.src = pr.root.source → cx.filter = none → cx.ignoreRaw = true →
         htmlWellFormed (appendBlock cx [] t') = true :=
-  PW.parse_render_wellformed_partial x ix inp
+  PW.parse_render_wellformed x ix inp
+
+/-- Every span of every node of every block-phase root lies inside its Source (every depth, every input). -/
+theorem blockphase_spanValid (x : PExt) (fuel : Nat) (inp : Bytes) :
+    ∀ r ∈ (drain (blocksLP x) fuel (memParser inp) []).1, ∀ u ∈ T.nodes (pbToTree r.block),
+      0 ≤ u.label.start ∧ u.label.start ≤ u.label.stop ∧ u.label.stop ≤ (r.source.length : Int) :=
+  PW.blockphase_spanValid x fuel inp
+
+/-- **C17(b) for Parse → Render with raw HTML ignored**: no start tag with a rejected name, for every name-closed predicate. -/
+theorem parse_render_no_rejected_start_tag_ignoreRaw (x : PExt) (ix : IExt) (inp : Bytes) :
+    ∀ pr ∈ (parseDoc x ix inp).roots, ∀ t', pr.tree = .ok t' →
+      ∀ (cx : RCtx) (p : Bytes → Bool), cx.src = pr.root.source → cx.filter = some p → cx.ignoreRaw = true →
+        NameClosed p → ∀ name ∈ Spec.startTags (appendBlock cx [] t'), p name = false :=
+  PW.parse_render_no_rejected_start_tag_ignoreRaw x ix inp
+
+/-- The simple sufficient condition for the seam contract is false of parser output (an unterminated last HTML line). -/
+theorem parse_rawClosed_false : ¬ parse_rawClosed_target := parse_rawClosed_target_false
 
 end CM.Props.C07
